@@ -10,6 +10,7 @@ assert sh('git status --short','/repo').stdout.strip()=='', '/repo is dirty'
 only=set(sys.argv[1:])
 jobs=[]
 for d in sorted(glob.glob(f'{V}/seeded/C*')):
+    if not os.path.exists(d+'/patch.diff'): continue   # superseded by a later fix (see meta.json)
     m=json.load(open(d+'/meta.json'))
     checks=re.findall(r'C\d\d', m.get('detected_by','')) or [m['breaks_property']]
     own=m['breaks_property']
